@@ -61,3 +61,11 @@ claim("C08", "model_checking",
       "and random bytes are scanned under the option sets of migrate.Stmts and of the three drivers; TLC evaluates Total / InRange / Increasing / TextAtPos / Lossless on each observation.",
       "Trusted: the harness's gap classifier and rendering of symbols; verdict domain is the four option sets community drivers use (others reported only).",
       "3 C08")
+claim("C07", "model_checking",
+      "QuoteSafety proved by TLC on Lexer.tla for every content up to length 4 (5); PlanFile.tla round-trip property; TLC-exported hostile contents driven through HCL -> planner -> six formatters -> directory readers -> driver scanner and validated by PlanFileTrace.tla; CLI import",
+      "TLC checks on Lexer.tla that a literal/identifier quoted by the discipline is opaque to the scanner for every hostile content up to length 4 (5 thorough) x 3 quote kinds x 2 option sets, and on PlanFile.tla that "
+      "reading a formatted plan gives back its commands (and, for formats with a down section, the reversed reverse statements). The quantifier domain (contents up to length 2, 3 thorough) is exported by TLC and instantiated at every "
+      "position where a user value enters Atlas, for MySQL, PostgreSQL and SQLite, through the real HCL evaluation, planners, six formatters (+indent, +custom delimiter), directory readers and driver scanners; TLC compares the "
+      "read-back statement ids with the planned ones. `migrate import` from five third-party formats must preserve the statement sequence.",
+      "Trusted: the harness's rendering of symbols and HCL escaping; inputs refused by the HCL layer are outside the domain. Five classes of genuine violations are recorded as known findings (see known_findings.json).",
+      "3 C07")
